@@ -134,6 +134,11 @@ def run(tier, seed, replay=None):
                 else:
                     res = o.derivative(*args, d=dval, above=above, tensor=tensor)
                 res = np.asarray(res, dtype=float)
+                if pd == 1 and tuple(res.shape) != (len(args[0]), spec['dim']):
+                    # "returns an n x dim array" for a list of n parameters, whatever the order of the derivative
+                    V.failure({'what': 'derivative of a curve at a list of %d parameters has shape %s, expected (%d, %d)'
+                                       % (len(args[0]), list(res.shape), len(args[0]), spec['dim']),
+                               'obj': O.spec_json(snap), 'alpha': list(alpha), 'op': 'derivative'})
                 ent['impl'] = res.reshape(-1, spec['dim'])
                 if ent['impl'].shape[0] != len(tuples):
                     V.failure({'what': 'derivative result has wrong number of points', 'shape': list(res.shape),
